@@ -122,6 +122,15 @@ for _ax in (0, 1, -1, 2):
     CASES.append((f"norm vec axis={_ax}", f"lambda anp, x: anp.linalg.norm(x, axis={_ax})", [((2, 3, 2), "R")], (0,)))
     CASES.append((f"norm ord=3 axis={_ax}", f"lambda anp, x: anp.linalg.norm(x, 3, axis={_ax})", [((2, 3, 2), "P")], (0,)))
 CASES += [
+    ("fft n= keyword bigger", "lambda anp, x: anp.fft.fft(x, n=8)", [((3, 5), "R")], (0,)),
+    ("fft n= keyword smaller", "lambda anp, x: anp.fft.fft(x, n=3)", [((2, 5), "C")], (0,)),
+    ("ifft n= keyword", "lambda anp, x: anp.fft.ifft(x, n=6)", [((4,), "C")], (0,)),
+    ("fft n= and axis= keywords", "lambda anp, x: anp.fft.fft(x, n=4, axis=0)", [((3, 2), "R")], (0,)),
+    ("rfft n= keyword", "lambda anp, x: anp.fft.rfft(x, n=4)", [((6,), "R")], (0,)),
+    ("irfft n= keyword", "lambda anp, x: anp.fft.irfft(x, n=6)", [((3,), "C")], (0,)),
+    ("fft2 s= axes= keywords", "lambda anp, x: anp.fft.fft2(x, s=(2, 3), axes=(0, 1))", [((3, 2), "C")], (0,)),
+    ("fftn s= keyword", "lambda anp, x: anp.fft.fftn(x, s=(3, 3))", [((2, 2), "R")], (0,)),
+    ("fft norm= keyword", "lambda anp, x: anp.fft.fft(x, norm='ortho', n=5)", [((4,), "R")], (0,)),
     ("linspace endpoint=False", "lambda anp, x, y: anp.linspace(x, y, 4, endpoint=False)", [((), "R"), ((), "R")], (0, 1)),
     ("linspace num=5", "lambda anp, x, y: anp.linspace(x, y, 5)", [((), "R"), ((), "R")], (0, 1)),
     ("linspace num kw", "lambda anp, x, y: anp.linspace(x, y, num=3)", [((), "R"), ((), "R")], (0, 1)),
